@@ -66,6 +66,18 @@ def mech_enum(m):
     return None if m is None else en.AuthenticationMechanism(m)
 
 
+def overwrite(b):
+    """the caller overwrites a decoded ACSE value in place (fields, the user-information and what it holds - the connection
+    itself replaces a ciphered initiate response by the deciphered one): a later decode of the same bytes is unaffected."""
+    ui = getattr(b, "user_information", None)
+    fw.scribble(b)
+    if ui is not None:
+        try:
+            ui.content = None
+        except Exception:  # noqa
+            pass
+
+
 def canon_ui(ui):
     return "none" if ui is None else c01.canon(ui.content)
 
@@ -115,13 +127,16 @@ class C02(fw.Prop):
                     return "ok " + fw.hx(bs) + " ber-nesting: " + w
                 wf = (d["mech"] not in (None, 0)) or val is None
                 if wf:
-                    b = acse.ApplicationAssociationRequest.from_bytes(bs)
-                    same = (b.ciphered == a.ciphered and (b.system_title or None) == (title or None) and (b.public_cert or None) == (cert or None)
-                            and norm_mech(b.authentication) == norm_mech(a.authentication)
-                            and (None if b.authentication_value is None else bytes(b.authentication_value)) == val
-                            and canon_ui(b.user_information) == canon_ui(a.user_information))
-                    if not same:
-                        return "ok " + fw.hx(bs) + " decoded-differs: " + repr(b)[:160]
+                    want_ui = canon_ui(a.user_information)
+                    for attempt in ("decoded-differs", "second-decode-differs"):
+                        b = acse.ApplicationAssociationRequest.from_bytes(bs)
+                        same = (b.ciphered == a.ciphered and (b.system_title or None) == (title or None) and (b.public_cert or None) == (cert or None)
+                                and norm_mech(b.authentication) == norm_mech(a.authentication)
+                                and (None if b.authentication_value is None else bytes(b.authentication_value)) == val
+                                and canon_ui(b.user_information) == want_ui)
+                        if not same:
+                            return "ok " + fw.hx(bs) + f" {attempt}: " + repr(b)[:160]
+                        overwrite(b)
                 return "ok " + fw.hx(bs)
             _, uib = user_info_obj(d["ui"])
             line = f"acse aarq {d['ciph']} {oh(title)} {oh(cert)} {on(d['mech'])} {oh(val)} {fw.hx(uib)}"
@@ -143,15 +158,18 @@ class C02(fw.Prop):
                     return "ok " + fw.hx(bs) + " ber-nesting: " + w
                 wf = (d["mech"] not in (None, 0)) or val is None
                 if wf:
-                    b = acse.ApplicationAssociationResponse.from_bytes(bs)
-                    same = (b.ciphered == a.ciphered and b.result == a.result and b.result_source_diagnostics == a.result_source_diagnostics
-                            and type(b.result_source_diagnostics) is type(a.result_source_diagnostics)
-                            and (b.system_title or None) == (title or None) and (b.public_cert or None) == (cert or None)
-                            and norm_mech(b.authentication) == norm_mech(a.authentication)
-                            and (None if b.authentication_value is None else bytes(b.authentication_value)) == val
-                            and canon_ui(b.user_information) == canon_ui(a.user_information))
-                    if not same:
-                        return "ok " + fw.hx(bs) + " decoded-differs: " + repr(b)[:160]
+                    want_ui, want_res, want_diag = canon_ui(a.user_information), a.result, a.result_source_diagnostics
+                    for attempt in ("decoded-differs", "second-decode-differs"):
+                        b = acse.ApplicationAssociationResponse.from_bytes(bs)
+                        same = (b.ciphered == bool(d["ciph"]) and b.result == want_res and b.result_source_diagnostics == want_diag
+                                and type(b.result_source_diagnostics) is type(want_diag)
+                                and (b.system_title or None) == (title or None) and (b.public_cert or None) == (cert or None)
+                                and norm_mech(b.authentication) == norm_mech(mech_enum(d["mech"]))
+                                and (None if b.authentication_value is None else bytes(b.authentication_value)) == val
+                                and canon_ui(b.user_information) == want_ui)
+                        if not same:
+                            return "ok " + fw.hx(bs) + f" {attempt}: " + repr(b)[:160]
+                        overwrite(b)
                 return "ok " + fw.hx(bs)
             _, uib = user_info_obj(d["ui"])
             line = (f"acse aare {d['ciph']} {d['res']} {d['du']} {d['diag']} {oh(title)} {oh(cert)} {on(d['mech'])} {oh(val)} "
@@ -209,9 +227,12 @@ class C02(fw.Prop):
                 w = ber_walk(bs)
                 if w:
                     return "ok " + fw.hx(bs) + " ber-nesting: " + w
-                b = cls.from_bytes(bs)
-                if not (b.reason == a.reason and canon_ui(b.user_information) == canon_ui(a.user_information)):
-                    return "ok " + fw.hx(bs) + " decoded-differs: " + repr(b)[:160]
+                want_ui = canon_ui(a.user_information)
+                for attempt in ("decoded-differs", "second-decode-differs"):
+                    b = cls.from_bytes(bs)
+                    if not (b.reason == reason and canon_ui(b.user_information) == want_ui):
+                        return "ok " + fw.hx(bs) + f" {attempt}: " + repr(b)[:160]
+                    overwrite(b)
                 return "ok " + fw.hx(bs)
             _, uib = user_info_obj(d["ui"])
             line = f"acse {k} {on(d['reason'])} {'none' if uib is None else fw.hx(uib)}"
